@@ -113,6 +113,8 @@ def run_case(case, rec, cid):
             r2 = recur.build(d2)
             ids = {}
             h1, h2 = ids.setdefault(hash(r), len(ids)), ids.setdefault(hash(r2), len(ids))
+            if case.get("noiter"):
+                return dict(eq=bool(r == r2), ne=bool(r != r2), h1=h1, h2=h2, p1=[], p2=[])
             return dict(eq=bool(r == r2), ne=bool(r != r2), h1=h1, h2=h2, p1=_pts(r), p2=_pts(r2))
         st, v = outcome(g)
         if st == "ok":
@@ -154,6 +156,11 @@ def expand(job):
             desc = recur.rand_recurrence(rnd, m, whole_anchor=True, maxn=rnd.choice([1, 3, 5]))
         desc["a"] = _hms(desc["a"])
         x = rnd.random()
+        if 0.45 <= x < 0.6:      # equality of end-anchored month/year recurrences (iteration of that class is C12's finding)
+            dk = recur.rand_recurrence(rnd, m, exact=False, bounded=True, fmt=4, whole_anchor=True, maxn=3)
+            dk["a"] = _hms(dk["a"])
+            yield {"mode": sp, "rec": dk, "kind": "eq", "diff": rnd.choice(["end", "n", "interval", "none"]), "seed": rnd.randrange(10 ** 9), "noiter": True}
+            continue
         if x < 0.45:
             d = dict(rnd.choice(SHIFTS))
             if rnd.random() < 0.4:
